@@ -28,9 +28,15 @@ UTypes ==
             any   |-> FD(ListOf(Named("Any")), <<>>),
             one   |-> FD(Named("Named"), <<>>),
             grid  |-> FD(ListOf(ListOf(I)), <<>>),
+            matrix |-> FD(ListOf(ListOf(Named("A"))), <<>>),
+            need2 |-> FD(S, <<AD("x", NonNull(S)), AD("o", S)>>),
             bad   |-> FD(S, <<>>),
             echo  |-> FD(S, <<AD("s", S), AD("b", B), AD("i", I)>>),
-            need  |-> FD(S, <<AD("x", NonNull(S))>>) ] ],
+            need  |-> FD(S, <<AD("x", NonNull(S))>>),
+            obj   |-> FD(S, <<AD("in", Named("In")), AD("l", ListOf(S))>>) ] ],
+    In |->
+      [ kind |-> "INPUT_OBJECT", ifaces |-> <<>>, members |-> <<>>, fields |-> [x \in {} |-> 0],
+        infields |-> <<AD("a", S), AD("n", I), AD("l", ListOf(S))>> ],
     Mutation |->
       [ kind |-> "OBJECT", ifaces |-> <<>>, members |-> <<>>,
         fields |-> [ set |-> FD(S, <<AD("s", S)>>), a |-> FD(Named("A"), <<>>) ] ],
@@ -69,9 +75,11 @@ UData ==
              any   |-> ListV(<<NodeV("b1"), NodeV("a2")>>),
              one   |-> NodeV("b1"),
              grid  |-> ListV(<<ListV(<<IntV(1), IntV(2)>>), ListV(<<>>), NullV, ListV(<<IntV(3), NullV>>)>>),
+             matrix |-> ListV(<<ListV(<<NodeV("a1"), NullV>>), ListV(<<>>), NullV, ListV(<<NodeV("a2"), NodeV("a1")>>)>>),
+             need2 |-> V("echo", 0),
              bad   |-> ErrV("bad fails"),
              echo  |-> V("echo", 0),
-             need  |-> V("echo", 0) ],
+             need  |-> V("echo", 0), obj |-> V("echo", 0) ],
     m  |-> [ set |-> V("echo", 0), a |-> NodeV("a2") ],
     a1 |-> [ name |-> StrV("a1"), n |-> IntV(1), peer |-> NodeV("b1"), self |-> NodeV("a1"),
              kids |-> ListV(<<NodeV("a2")>>), boom |-> ErrV("boom fails"), many |-> V("errs", 2), tag |-> V("echo", 0) ],
@@ -80,11 +88,13 @@ UData ==
     b1 |-> [ name |-> StrV("b1"), flag |-> BoolV(TRUE), peer |-> NodeV("a1") ] ]
 
 UExec == [ types |-> UTypes, nodeType |-> UNodeType, data |-> UData,
-           roots |-> [ query |-> "q", mutation |-> "m" ] ]
+           roots |-> [ query |-> "q", mutation |-> "m" ], nth |-> {} ]
 
-\* U with the resolver calls in `faults` (set of <<node, field>>) made to fail  (C06)
+\* U with the resolver calls in `faults` (<<node, field>>) made to fail and the list accessors
+\* (<<node, field, index as string>>) made to fail  (C06)
 WithFaults(U, faults) ==
-  [U EXCEPT !.data = [nd \in DOMAIN U.data |->
+  [U EXCEPT !.nth = {f \in faults : Len(f) = 3},
+            !.data = [nd \in DOMAIN U.data |->
                         [f \in DOMAIN U.data[nd] |->
                            IF <<nd, f>> \in faults THEN ErrV("injected") ELSE U.data[nd][f]]]]
 =============================================================================
